@@ -832,7 +832,20 @@ func (e *SpecEnv) call(n *SCall) Value {
 		return boolV(x.errIs(e.st, a.S, b.S))
 	case "deref":
 		v := e.eval(n.Args[0])
+		if v.K == KIface {
+			if v.Dyn == nil {
+				specFail("deref(): dynamic value of the interface is not known here")
+			}
+			v = *v.Dyn
+		}
 		return x.load(e.st, v, token.NoPos)
+	case "dyn":
+		// dyn(x): the concrete value held by an interface (when statically known)
+		v := e.eval(n.Args[0])
+		if v.K != KIface || v.Dyn == nil {
+			specFail("dyn(): dynamic value of the interface is not known here")
+		}
+		return *v.Dyn
 	case "stored":
 		// stored(store, key): the abstract state store holds key
 		s, k := e.eval(n.Args[0]), e.eval(n.Args[1])
